@@ -355,3 +355,28 @@ func (c *Ctx) noteSlow(us int64, what func() string) {
 		}
 	}
 }
+
+// plantedSeeds builds, for every buffer and cursor position, a harness-registered
+// command that plants exactly that state (Line().Set / Cursor().Set), bound in keymap km,
+// and the seeds that invoke them. enter is typed first (e.g. ESC for vi command mode).
+func plantedSeeds(km string, bufs []string, enter []harness.Answer) (rc string, probes []harness.Probe, seeds []Seed) {
+	var sb strings.Builder
+	fmt.Fprintf(&sb, "set keymap %s\n", km)
+	i := 0
+	for _, b := range bufs {
+		n := len([]rune(b))
+		for pos := 0; pos <= n; pos++ {
+			seq := "\x18\x1dP" + string(rune('a'+i/26)) + string(rune('a'+i%26))
+			name := fmt.Sprintf("verif-plant-%d", i)
+			fmt.Fprintf(&sb, "\"%s\": %s\n", inputrc.Escape(seq), name)
+			probes = append(probes, harness.Probe{Name: name, Kind: "seed", Arg: b, Pos: pos})
+			pre := append(append([]harness.Answer{}, enter...), Key(seq))
+			seeds = append(seeds, Seed{Name: fmt.Sprintf("planted(%q,%d)", b, pos), Pre: pre})
+			i++
+		}
+	}
+	if i > 26*26 {
+		panic("too many planted states")
+	}
+	return sb.String(), probes, seeds
+}
